@@ -360,7 +360,8 @@ def run_cbmc(unit, q, work, tier):
     elif be == 'z3':
         cmd += ['--z3']
     cmd += list(d.get('flags', []))
-    timeout = d.get('timeout', 300)
+    # spec timeouts were measured on a quiet machine; the check must not turn inconclusive merely because the machine is busy
+    timeout = int(d.get('timeout', 300) * float(os.environ.get('VERIF_TIMEOUT_SCALE', '3')))
     mem = d.get('mem_gb', 8)
     rc, out, err, wall, rss = sh(cmd, timeout=timeout, mem_gb=mem, env=env)
     q.res.update(solver_s=round(wall, 2), backend=be or 'minisat(default)', cmd=' '.join(cmd[2:]))
